@@ -585,7 +585,7 @@ Proof.
   unfold cvE. destruct (aget h (costs e)) as [c|] eqn:Hc.
   - apply aget_in in Hc. destruct F as [(-> & _ & Fa) | (_ & _ & Fa)].
     + exact (Fa h c Hc).
-    + specialize (Fa h c Hc). unfold lex_le in Fa. lia.
+    + specialize (Fa h c Hc). unfold lex_le, lex_le_k in Fa. lia.
   - destruct F as [(-> & _) | (Fl & _)]; lia.
 Qed.
 
@@ -606,7 +606,7 @@ Proof.
   unfold cvE. destruct (aget h (costs e)) as [c|] eqn:Hc.
   - apply aget_in in Hc. destruct S as [(-> & _ & Sa) | (_ & _ & _ & Sa)].
     + exact (Sa h c Hc Hne).
-    + specialize (Sa h c Hc Hne). unfold lex_le in Sa. lia.
+    + specialize (Sa h c Hc Hne). unfold lex_le, lex_le_k in Sa. lia.
   - destruct S as [(-> & _) | (Sl & _)]; lia.
 Qed.
 
@@ -620,14 +620,14 @@ Proof.
 Qed.
 
 (* F4: among hops of equal best cost the one with the least hash is chosen *)
-Lemma n1_least : forall r d h, rib_ok r -> rv r d h = b1 r d -> b1 r d < INF -> n1 r d <= h.
+Lemma n1_least : forall r d h, rib_ok r -> rv r d h = b1 r d -> b1 r d < INF -> (tie_key (n1 r d) <= tie_key h)%Z.
 Proof.
   intros r d h Hok. unfold b1, rv, n1. destruct (aget d r) as [e|] eqn:He; [|lia].
   destruct (entry_two_least r d e Hok He) as ([F _] & A & B). intros Heq Hlt.
   unfold cvE in Heq. destruct (aget h (costs e)) as [c|] eqn:Hc; [|lia].
   apply aget_in in Hc. subst c.
   destruct F as [(E & _) | (_ & _ & Fa)]; [lia|].
-  specialize (Fa h _ Hc). unfold lex_le in Fa. lia.
+  specialize (Fa h _ Hc). unfold lex_le, lex_le_k in Fa. lia.
 Qed.
 
 (* what a neighbour's advertisement contains *)
